@@ -18,7 +18,7 @@ pub fn mon() -> Mon {
         replay,
         rule: "Random valid configurations: every n in 1..=16, every PCI/IANA format mix for n <= 8 (2^n) and random mixes above, random identifier (PCI sets with a non-zero high half) and numeric values, including value-identical (duplicated) sets. For each configuration: (1) the selector walk from 0 following the returned next-selector, which must visit sets 0..n-1 exactly once in order and stop at 0xFF, each response compared byte-for-byte with the literal layout [Success, next, format, id MSB-first, value MSB-first]; (2) every selector < n queried in several random orders, interleaved with other traffic (Set/Get EID, other queries, responses, vendor messages, corrupted packets, decode-only calls, out-of-range selectors) on two interleaved contexts, every Get Vendor Defined Message Support response judged against the model. A sample is logged as JSONL and re-checked in Python. Non-trivial = a configuration whose walk completed; distinct = distinct (configuration, query order) hashes.",
         assumptions: &["selectors >= n are outside this claim (C10 judges that they do not panic)", "valid configurations only: 1-16 sets, format 0 or 1"],
-        children: no_children,
+        children: rel_child_quarter,
     }
 }
 
